@@ -406,8 +406,11 @@ impl<'a> Gen<'a> {
                     }
                 }
                 (k, _) => {
+                    // singular scalars of nested messages render the same way (`name: value`), so they are
+                    // expected in the Debug output as well
                     let name = f.name.clone();
-                    self.scalar(k, w, full, &mut out, tag, false, if top { Some(name.as_str()) } else { None });
+                    let _ = top;
+                    self.scalar(k, w, full, &mut out, tag, false, Some(name.as_str()));
                 }
             }
             if top && out.len() > before {
